@@ -101,7 +101,12 @@ def cmd_confirm(ids):
                         rc, out = sh(pc, cwd=w, env=env, timeout=3000)
                         r[name] = summary_line(out)
                     r["cmd"] = pc
-                    r["same"] = r["clean"] == r["mutated"]
+                    def bad(summary):
+                        return sum(int(n) for n, k in re.findall(r"(\d+) (failed|error|errors)\b", summary))
+
+                    # "same" = the mutated tree is not worse (a handful of baseline tests are flaky on the
+                    # unmodified tree: Nelder-Mead based prox tests, see DESIGN §10)
+                    r["same"] = r["clean"] == r["mutated"] or bad(r["mutated"]) <= bad(r["clean"])
                     tests.append(r)
                 res["tests"] = tests
             res["confirmed"] = bool(
